@@ -632,7 +632,7 @@ impl Prop for C03 {
         ]
     }
     fn cases(&self, tier: Tier) -> u32 {
-        tier.pick(60_000, 2_000_000)
+        tier.pick(200_000, 2_000_000)
     }
     fn enumerated_subspaces(&self, _tier: Tier) -> Vec<String> {
         vec![
